@@ -28,4 +28,46 @@ theorem allowAll_regenerated_from_source (fs : List Filter) (ip : Option Addr) :
   simp only [allowAllIR, allowAll, allowAll_regenerated_from_source_loop]
   by_cases h : List.all fs (fun f => allow f ip) = true <;> simp [h]
 
+/-! ### `ipfilter.New` (Extension mux): the closure `rangerFromIPCIDRs` -/
+
+/-- `net.IPMask.Size()` reports `bits = 8 * len(mask)`. -/
+def EntryWF : RawEntry → Prop
+  | .cidr _ _ bits => bits % 8 = 0
+  | _ => True
+
+theorem new_regenerated_from_source_loop (es0 : List RawEntry) :
+    ∀ (es : List RawEntry) (r : List Cidr), (∀ e ∈ es, EntryWF e) →
+      rangerIR_loop1 es0 r es = .inr (r ++ es.filterMap mkCidr)
+  | [], r, _ => by simp [rangerIR_loop1]
+  | e :: es, r, hw => by
+    have ih := fun r' => new_regenerated_from_source_loop es0 es r' (fun e' h => hw e' (List.mem_cons_of_mem _ h))
+    have he := hw e List.mem_cons_self
+    cases e with
+    | ip a =>
+      cases a <;>
+        simp [rangerIR_loop1, parseIP, to4, insertNet, ih, mkCidr, Addr.width]
+    | bad => simp [rangerIR_loop1, parseIP, parseCIDR, ih, mkCidr, List.filterMap_cons]
+    | cidr a ones bits =>
+      simp only [EntryWF] at he
+      cases a with
+      | v6 n => simp [rangerIR_loop1, parseIP, parseCIDR, to4, insertNet, ih, mkCidr]
+      | v4 n =>
+        have hb : (maskBytes (ones, bits) == 16) = (bits == 128) := by
+          have hiff : (bits / 8 = 16) ↔ (bits = 128) := by omega
+          rw [Bool.eq_iff_iff]
+          simp [maskBytes, hiff]
+        simp only [rangerIR_loop1, parseIP, parseCIDR, to4, Option.isSome_none, Bool.false_eq_true, if_false,
+          Option.isSome_some, Bool.true_and, hb, maskDrop, insertNet, ih, mkCidr, List.filterMap_cons]
+        rcases Nat.decEq bits 128 with h | h
+        · simp [h]
+        · subst h; simp
+
+/-- **`ipfilter.New`, per list**: the generated `rangerIR` (current body of the closure
+`rangerFromIPCIDRs`: address vs CIDR, mask by family, IPv4-mapped CIDR conversion, junk skipped) is the
+model's `ranger`. -/
+theorem new_regenerated_from_source (es : List RawEntry) (hw : ∀ e ∈ es, EntryWF e) :
+    rangerIR es = ranger es := by
+  simp [rangerIR, new_regenerated_from_source_loop es es [] hw, ranger]
+
 end EgVerif.IPFilter
+
